@@ -302,3 +302,38 @@ Section TreeRenderEquiv.
     pose proof (veq_of_permutation top top' Hnd Hp) as H. now inversion H.
   Qed.
 End TreeRenderEquiv.
+
+(* ------------------------------------------------------------------ the hypothesis is satisfiable *)
+
+(* an executor that prints the string found under a path of the scope value (what {{ .A.B.C }} does
+   for a string leaf): it cannot tell two orders of a map apart *)
+Fixpoint path_str (v : val) (p : list string) : string :=
+  match p with
+  | [] => match v with VStr s => s | _ => EmptyString end
+  | k :: r => match v with
+              | VMap m => match mget k m with Some x => path_str x r | None => no_value end
+              | _ => EmptyString
+              end
+  end.
+
+Lemma path_str_veq p : forall v v', veq v v' -> path_str v p = path_str v' p.
+Proof.
+  induction p as [|k r IH]; intros v v' H; inversion H; subst; simpl; auto.
+  match goal with Hm : forall k, orel veq _ _ |- _ => destruct (Hm k) as [|a b Hab]; auto end.
+Qed.
+
+Definition probe_exec (p : list string) (_ : unit) (_ : unit) (k : string) (v : val) : option (string * unit) :=
+  Some (k ++ "=" ++ path_str v p, tt).
+
+Lemma probe_exec_veq p : forall t u k v v', veq v v' -> probe_exec p t u k v = probe_exec p t u k v'.
+Proof. intros t u k v v' H. unfold probe_exec. now rewrite (path_str_veq p v v' H). Qed.
+
+(* so for this executor the render of ANY chart tree is the same for the values and for the values
+   with the top-level map reversed *)
+Example render_values_order_witness (c : chart) (top : vmap) :
+  NoDup (map fst top) ->
+  engine_render_tree VStr unit (fun t _ _ => Some t) unit (probe_exec ["Values"; "k"]) tt tt c top
+  = engine_render_tree VStr unit (fun t _ _ => Some t) unit (probe_exec ["Values"; "k"]) tt tt c (rev top).
+Proof.
+  intros Hnd. apply engine_render_values_permuted; [apply probe_exec_veq|exact Hnd|apply Permutation_rev].
+Qed.
